@@ -26,6 +26,10 @@ for name in sorted(os.listdir(os.path.join(HERE, 'seeded'))):
     if a.returncode != 0:
         a = subprocess.run(['patch', '-p1', '-d', scratch, '-i', os.path.join(d, 'patch.diff')], stdout=subprocess.PIPE, stderr=subprocess.STDOUT, text=True)
     res = {}
+    if a.returncode != 0:
+        print(name, 'PATCH DOES NOT APPLY to /repo HEAD:', a.stdout.strip()[:200], flush=True)
+        shutil.rmtree(scratch, ignore_errors=True)
+        continue
     for p in props:
         t0 = time.time()
         r = subprocess.run([os.path.join(HERE, 'verif'), 'check', p, '--tier', tier, '--repo', scratch, '--jobs', jobs, '--no-evidence'], cwd=HERE,
